@@ -477,10 +477,22 @@ def run_impl(case):
             return {'list': list(p.values())}
         if op[0] == 'items':
             return {'pairs': [list(x) for x in p.items()]}
-        if op[0] == 'getint':
-            return {'list': [seq_key(x) for x in p[op[1]].path_t.__ops__]}
-        if op[0] == 'slice':
-            return {'list': [seq_key(x) for x in p[slice(op[1], op[2], op[3])].path_t.__ops__]}
+        if op[0] in ('getint', 'slice'):
+            q = p[op[1]] if op[0] == 'getint' else p[slice(op[1], op[2], op[3])]
+            out = {'list': [seq_key(x) for x in q.path_t.__ops__]}
+            # the Path obtained by indexing / slicing is itself a faithful value (an empty selection included)
+            try:
+                import copy
+                for proto in (0, 2, pickle.HIGHEST_PROTOCOL):
+                    back = pickle.loads(pickle.dumps(q, proto))
+                    if type(back) is not type(q) or [seq_key(x) for x in back.path_t.__ops__] != out['list'] or repr(back) != repr(q):
+                        out['derived_pickle'] = 'protocol %d changed %r into %r' % (proto, q, back)
+                back = copy.deepcopy(q)
+                if [seq_key(x) for x in back.path_t.__ops__] != out['list']:
+                    out['derived_pickle'] = 'deepcopy changed %r into %r' % (q, back)
+            except Exception as e:
+                out['derived_pickle'] = '%r: %s: %s' % (q, type(e).__name__, e)
+            return out
         form = op[2] if len(op) > 2 else 'path'
         if op[0] == 'startswith':
             o = op[1]
@@ -629,6 +641,8 @@ def direct_oracle(case, out):
         return '; '.join(out['problems']) if out.get('problems') else None
     if out.get('bad_arg') == 'accepted':
         return 'Path.startswith(<int>) did not raise TypeError'
+    if out.get('derived_pickle'):
+        return 'a Path obtained by indexing / slicing does not round-trip: %s' % out['derived_pickle']
     if 'other_type' in out and out['other_type'] != [False, True, False]:
         return 'a Path compares equal to a non-Path value: %r' % (out['other_type'],)
     if case['kind'] != 'repr' or 'ir' not in out:
